@@ -323,10 +323,14 @@ class Visitor:
                 path, prop_function = decorator.callable_path.rsplit(".", 1)
             except ValueError:
                 continue
+            # The path can also match through an alias of an outer scope: only an actual, non-alias member counts.
+            member = self.current.members.get(function.name)
             property_setter_or_deleter = (
                 prop_function in {"setter", "deleter"}
                 and path == function.path
-                and self.current.get_member(function.name).has_labels("property")
+                and member is not None
+                and not member.is_alias
+                and member.has_labels("property")
             )
             if property_setter_or_deleter:
                 return prop_function
